@@ -75,7 +75,8 @@ impl<'c> Body<'c> {
 }
 
 fn maybe_panic(ctx: &Ctx, uid: u32, what: u8) {
-    if ctx.inject[uid as usize].load(SeqCst) == what {
+    // one-shot: the fault fires once, a retry by the caller sees a healthy system
+    if ctx.inject[uid as usize].compare_exchange(what, INJ_NONE, SeqCst, SeqCst).is_ok() {
         let t = ctx.next_token();
         ctx.fired[uid as usize].fetch_add(1, SeqCst);
         ctx.panic_fired.fetch_add(1, SeqCst);
@@ -221,6 +222,72 @@ impl<'a> System<'a> for HSys {
     fn dispose(self, _world: &mut World) {
         self.acc.ctx.disposes[self.acc.uid as usize].fetch_add(1, SeqCst);
         self.acc.ctx.ev(Ev::Dispose, self.acc.uid, 0);
+    }
+}
+
+/// Accessor type with a (useless, empty) default: `try_new()` is `Some`. A system is free to
+/// override `System::accessor()` all the same; everything must then go by what `accessor()` says.
+pub struct HAccD(pub HAcc);
+
+fn dummy_ctx() -> Arc<Ctx> {
+    static D: std::sync::OnceLock<Arc<Ctx>> = std::sync::OnceLock::new();
+    D.get_or_init(|| Ctx::new(1, 1)).clone()
+}
+
+impl Accessor for HAccD {
+    fn try_new() -> Option<Self> {
+        Some(HAccD(HAcc { uid: 0, rslots: vec![], wslots: vec![], ctx: dummy_ctx() }))
+    }
+    fn reads(&self) -> Vec<ResourceId> {
+        self.0.reads()
+    }
+    fn writes(&self) -> Vec<ResourceId> {
+        self.0.writes()
+    }
+}
+
+pub struct HDataD<'a>(HData<'a>);
+
+impl<'a> DynamicSystemData<'a> for HDataD<'a> {
+    type Accessor = HAccD;
+    fn setup(acc: &HAccD, world: &mut World) {
+        HData::setup(&acc.0, world)
+    }
+    fn fetch(acc: &HAccD, world: &'a World) -> Self {
+        HDataD(HData::fetch(&acc.0, world))
+    }
+}
+
+pub struct HSysD {
+    inner: HSys,
+    accd: HAccD,
+}
+
+impl HSysD {
+    pub fn new(sp: &SysSpec, ctx: &Arc<Ctx>) -> HSysD {
+        HSysD {
+            inner: HSys::new(sp, ctx),
+            accd: HAccD(HAcc { uid: sp.uid, rslots: sp.reads.clone(), wslots: sp.writes.clone(), ctx: ctx.clone() }),
+        }
+    }
+}
+
+impl<'a> System<'a> for HSysD {
+    type SystemData = HDataD<'a>;
+    fn run(&mut self, data: HDataD<'a>) {
+        self.inner.run(data.0)
+    }
+    fn running_time(&self) -> RunningTime {
+        self.inner.running_time()
+    }
+    fn accessor<'b>(&'b self) -> AccessorCow<'a, 'b, Self> {
+        AccessorCow::Ref(&self.accd)
+    }
+    fn setup(&mut self, world: &mut World) {
+        System::setup(&mut self.inner, world)
+    }
+    fn dispose(self, world: &mut World) {
+        System::dispose(self.inner, world)
     }
 }
 
@@ -600,12 +667,30 @@ pub struct HCtl<M: Menu> {
     time: u8,
     ctx: Arc<Ctx>,
     obs: u64,
+    /// (uid, runs per inner dispatch) of everything inside the batch
+    inner_expect: Vec<(u32, u32)>,
     _m: PhantomData<M>,
 }
 
 impl<M: Menu> HCtl<M> {
     pub fn new(b: &BatchSpec, ctx: &Arc<Ctx>) -> Self {
-        HCtl { uid: b.uid, k: b.k, time: b.time, ctx: ctx.clone(), obs: 0, _m: PhantomData }
+        let per = crate::exec::expected_counts(&b.inner, crate::exec::DMode::Dispatch, ctx.n);
+        let inner_expect = per.iter().enumerate().filter(|(_, c)| **c > 0).map(|(u, c)| (u as u32, *c)).collect();
+        HCtl { uid: b.uid, k: b.k, time: b.time, ctx: ctx.clone(), obs: 0, inner_expect, _m: PhantomData }
+    }
+
+    /// One inner dispatch the way this controller does it.
+    fn inner_dispatch<'a, 'b>(&self, world: &World, dispatcher: &mut Dispatcher<'a, 'b>) {
+        if self.ctx.inner_seq.load(SeqCst) {
+            dispatcher.dispatch_seq(world);
+            dispatcher.dispatch_thread_local(world);
+        } else if self.uid % 3 == 0 {
+            // the trait entry point (documented as: same as `dispatch`), called on whatever
+            // thread runs this controller - usually a pool worker
+            RunNow::run_now(dispatcher, world);
+        } else {
+            dispatcher.dispatch(world);
+        }
     }
 }
 
@@ -647,11 +732,28 @@ impl<'a, 'b, 'c, M: Menu> BatchController<'a, 'b, 'c> for HCtl<M> {
         }
         for i in 0..self.k {
             ctx.ev(Ev::InnerBegin, uid, i as u16);
-            if ctx.inner_seq.load(SeqCst) {
-                dispatcher.dispatch_seq(world);
-                dispatcher.dispatch_thread_local(world);
+            if ctx.ctl_catches.load(SeqCst) {
+                // a controller that survives a failing inner system: catch, then dispatch the
+                // inner dispatcher again in the same frame - that dispatch must be a perfectly
+                // normal one (every inner system exactly once)
+                let r = std::panic::catch_unwind(std::panic::AssertUnwindSafe(|| self.inner_dispatch(world, dispatcher)));
+                if r.is_err() {
+                    ctx.ctl_caught.fetch_add(1, SeqCst);
+                    let before: Vec<u32> = self.inner_expect.iter().map(|(u, _)| ctx.runs[*u as usize].load(SeqCst)).collect();
+                    self.inner_dispatch(world, dispatcher);
+                    for ((u, want), b) in self.inner_expect.iter().zip(before) {
+                        let got = ctx.runs[*u as usize].load(SeqCst) - b;
+                        if got != *want {
+                            ctx.violation(format!(
+                                "c14: batch u{} caught the panic of an inner system and dispatched its inner dispatcher again: in that dispatch u{} ran {} times, expected {}",
+                                uid, u, got, want
+                            ));
+                            break;
+                        }
+                    }
+                }
             } else {
-                dispatcher.dispatch(world);
+                self.inner_dispatch(world, dispatcher);
             }
             ctx.ev(Ev::InnerEnd, uid, i as u16);
         }
@@ -754,16 +856,35 @@ pub fn instantiate(plan: &Plan, ctx: &Arc<Ctx>, pool: Option<&Pool>) -> Dispatch
     if let Some(p) = pool {
         b.add_pool(p.clone());
     }
-    for it in &plan.items {
+    for (idx, it) in plan.items.iter().enumerate() {
+        if let Item::Failed(k) = it {
+            failed_attempt(&mut b, &plan.items[..idx], *k, ctx);
+            continue;
+        }
         register(&mut b, it, ctx, pool);
     }
     b
+}
+
+/// An ill-formed `add` (it must panic), caught; the builder is used further.
+pub fn failed_attempt(b: &mut DispatcherBuilder<'static, 'static>, earlier: &[Item], kind: u8, ctx: &Arc<Ctx>) {
+    let ghost = SysSpec { uid: 0, name: String::new(), deps: vec![], reads: vec![], writes: vec![], time: 3, kind: Kind::Dyn };
+    let dup: Option<String> = earlier.iter().rev().find_map(|x| match x {
+        Item::Sys(s) if !s.name.is_empty() => Some(s.name.clone()),
+        Item::Batch(bb) if !bb.name.is_empty() => Some(bb.name.clone()),
+        _ => None,
+    });
+    let _ = std::panic::catch_unwind(std::panic::AssertUnwindSafe(|| match (kind, dup) {
+        (1, Some(name)) => b.add(HSys::new(&ghost, ctx), &name, &[]),
+        _ => b.add(HSys::new(&ghost, ctx), "never registered", &["no such dependency"]),
+    }));
 }
 
 /// Registers one item (used directly by C18/C20 which watch every single call).
 pub fn register(b: &mut DispatcherBuilder<'static, 'static>, it: &Item, ctx: &Arc<Ctx>, pool: Option<&Pool>) {
     match it {
         Item::Barrier => b.add_barrier(),
+        Item::Failed(_) => {} // needs the registration history: handled by `instantiate`
         Item::Tl(t) => b.add_thread_local(HTl::new(t, ctx)),
         Item::Sys(sp) => {
             let deps: Vec<&str> = sp.deps.iter().map(|d| d.as_str()).collect();
